@@ -1,6 +1,7 @@
 (* Evaluators used by the correspondence shards of C10. *)
 From Coq Require Import ZArith NArith List Bool.
 From GoCoap Require Import Base.Cases Base.Bytes Gen.ServerConsts NoResp.Model Dedup.Model Dedup.Spec Server.Model Server.Spec.
+From GoCoap Require Monitor.Model Server.KeepAlive.
 Import ListNotations.
 Open Scope Z_scope.
 
@@ -32,6 +33,10 @@ Record cobs := CO { co_kind : ckind;
                     co_new : Z; co_errs : Z;                 (* OnNewConn calls / errors reported for its address *)
                     co_hlog : list hcall }.
 
+(* one peer of a keep-alive run: creation time of its connection, (trace, request answered?) with the others / alone *)
+Record kpeer := KP { kp_open : Z; kp_together : list kitem; kp_ans_together : list bool;
+                     kp_alone : list kitem; kp_ans_alone : list bool }.
+
 Inductive case :=
 | UdpRun (maxsize : Z) (lst : addr) (dst : option ip) (peers : list peer_obs) (sched : list nat)
          (alive probe stopped : bool) (panics : Z)
@@ -55,7 +60,11 @@ Inductive case :=
 | DiscRun (lst : addr) (dst : option ip) (steps : list (dstep * addr * list Z))
 (* tcp server on a TLS listener / dtls server with PSK, over loopback: well-behaved clients that connected before
    and after peers which stall, garble or abandon their handshake *)
-| TlsRun (dtls : bool) (conns : list cobs) (alive probe stopped : bool) (panics : Z).
+| TlsRun (dtls : bool) (conns : list cobs) (alive probe stopped : bool) (panics : Z)
+(* udp / tcp server with options.WithKeepAlive(mx, timeout) (Monitor period per) and several peers, on a virtual
+   clock: the events in the order they were executed, and per peer what it saw in this run and in the run in which
+   it was alone *)
+| KaRun (tcp : bool) (per mx : Z) (evs : list KeepAlive.kev) (peers : list kpeer) (alive stopped : bool) (panics : Z).
 
 (* ---- building the event list of a run from the send order ---- *)
 Fixpoint pop_nth {A} (i : nat) (qs : list (list A)) : option A * list (list A) :=
@@ -215,6 +224,7 @@ Fixpoint disc_agrees (lst : addr) (dst : option ip) (s : sstate cstate) (steps :
       let e := match st with
                | DS_Start tok rcv _ => EDiscStart tok rcv
                | DS_End tok => EDiscEnd tok
+               | DS_StartFail tok rcv _ => EDiscFail tok rcv
                | DS_Resp _ _ _ _ _ | DS_Ping => EDgram a lst dst d
                end in
       match cserver_step 65536 s e with
@@ -223,6 +233,9 @@ Fixpoint disc_agrees (lst : addr) (dst : option ip) (s : sstate cstate) (steps :
           (match st with
            | DS_Start _ _ ex => Bool.eqb ex (existsb (fun o => match o with SDiscExists => true | _ => false end) outs)
            | DS_End _ | DS_Ping => true
+           | DS_StartFail _ _ res =>
+               res =? (if existsb (fun o => match o with SDiscExists => true | _ => false end) outs then 1
+                       else if existsb (fun o => match o with SDiscSendErr => true | _ => false end) outs then 2 else 0)
            | DS_Resp sender _ _ od oa =>
                (sender =? a_port a)
                && list_eqb deliv_eqb od
@@ -232,8 +245,23 @@ Fixpoint disc_agrees (lst : addr) (dst : option ip) (s : sstate cstate) (steps :
       end
   end.
 
+(* ---- keep-alive level (Server/KeepAlive.v); the cancel of a superseded ping is not visible on the wire ---- *)
+Definition kvisible (o : KM.obs) : bool := match o with KM.Cancel _ => false | _ => true end.
+Definition kstrip (l : list kitem) : list kitem := map (fun it => (fst it, filter kvisible (snd it))) l.
+Definition ka_agrees (per mx : Z) (evs : list KeepAlive.kev) (peers : list kpeer) : bool :=
+  let c := {| KM.period := per; KM.maxr := mx; KM.ka := true |} in
+  let outs := snd (KeepAlive.krun c [] evs) in
+  forallb (fun ip =>
+     let '(i, p) := ip in
+     list_eqb kitem_eqb (kstrip (KeepAlive.kproj i outs)) (kp_together p)
+     && list_eqb kitem_eqb (kstrip (KeepAlive.conn_run c (KM.init (kp_open p)) (map fst (kp_alone p)))) (kp_alone p)
+     && forallb (fun b => b) (kp_ans_together p) && forallb (fun b => b) (kp_ans_alone p))
+    (combine (seq 0 (length peers)) peers).
+
 Definition agrees (c : case) : bool :=
   match c with
+  | KaRun _ per mx evs peers alive stopped panics =>
+      alive && stopped && (panics =? 0) && ka_agrees per mx evs peers
   | UdpRun maxsize lst dst peers sched alive probe stopped panics =>
       alive && probe && stopped && (panics =? 0) &&
       match cserver_run maxsize (init_state 0)
@@ -286,7 +314,11 @@ Definition pclass (c : case) : N :=
       if negb (N.eqb h 0) then h
       else c10_run_class alive probe stopped panics
              (flat_map (fun c => match co_kind c with CkGood => [(co_xs c, co_new c, co_errs c, co_hlog c)] | _ => [] end) conns)
-  | DiscRun _ _ steps => if disc_ok [] (map (fun x => fst (fst x)) steps) then 0%N else 7%N
+  | DiscRun _ _ steps => disc_class [] (map (fun x => fst (fst x)) steps)
+  | KaRun _ _ _ _ peers alive stopped panics =>
+      if negb (alive && stopped) then 1%N
+      else if negb (panics =? 0) then 2%N
+      else c10_keepalive_class (map (fun p => ((kp_together p, kp_ans_together p), (kp_alone p, kp_ans_alone p))) peers)
   (* every ping must be answered: a datagram for a key whose connection was closed is served by a replacement, not dropped *)
   | RaceRun _ _ pairs _ _ _ _ op od => if (od =? 0) && (op =? Z.of_nat pairs) then 0%N else 8%N
   (* "never stops accepting": Serve may return only after the listener was closed or after its own context ended *)
